@@ -9,6 +9,7 @@ orthogonal to the given rows), `eigh` the pair `(eigs, U)` (assumed `Uᵀ B U = 
 `Uᵀ U = 1`), `svd` the triple `(u, Σ, vh)`.  Square roots are a supplied `r` with `IsSqrt r`.
 -/
 import GT.Lemmas.FrameCompletion
+import GT.Lemmas.FrameSvd
 import GT.Lemmas.Diag
 import GT.Lemmas.Arcs
 import Mathlib.Analysis.SpecialFunctions.Sqrt
@@ -69,6 +70,18 @@ theorem findIsometry_isIso (hr : IsSqrt r) (x : Fin (n + 1) → K) (rest ker : L
     (hlen : (findIsometry r (minkJ n) (x :: rest) ker).length = n + 1) :
     IsIso (rowsMatrix (findIsometry r (minkJ n) (x :: rest) ker) hlen) :=
   findIsometry_isIso' hr x rest ker hx hker hnz hlen
+
+/-- the same assuming only the LAPACK contract of the SVD that `utils.kernel(orth_partial @ minkowski)`
+runs (`SvdContract`): orthogonality of the kernel basis to the frame, its general position and the
+row count are derived; of the input only "`x` timelike, rows linearly independent" is assumed -/
+theorem findIsometry_isIso_svd (hr : IsSqrt r) (x : Fin (n + 1) → K) (rest : List (Fin (n + 1) → K))
+    (hx : mink x x < 0) (hpartial : ∀ u ∈ gs (minkJ n) (x :: rest), u ≠ 0)
+    {k : ℕ} (hk : (indefiniteOrthogonalize r (minkJ n) (x :: rest)).length = k)
+    (tol : K) (s : List K) (U : Matrix (Fin k) (Fin k) K) (Vh : Matrix (Fin (n + 1)) (Fin (n + 1)) K)
+    (hsvd : SvdContract tol (rowsMatrix (indefiniteOrthogonalize r (minkJ n) (x :: rest)) hk * minkJ n) s U Vh) :
+    ∃ h : (findIsometry r (minkJ n) (x :: rest) (svdKernelRows tol k s Vh)).length = n + 1,
+      IsIso (rowsMatrix (findIsometry r (minkJ n) (x :: rest) (svdKernelRows tol k s Vh)) h) :=
+  findIsometry_isIso_of_svd hr x rest hx hpartial hk tol s U Vh hsvd
 
 /-- `make_orientation_preserving`: a diagonal Gram matrix `M F Mᵀ` (in particular `= J`) is
 unchanged and the determinant becomes positive -/
